@@ -22,10 +22,32 @@ type decision struct {
 	Unchecked bool
 }
 
+// pnode is one decision of a path prefix; prefixes share their common part (a pending
+// alternative costs one node, not a copy of the whole prefix).
+type pnode struct {
+	parent *pnode
+	d      decision
+	depth  int
+}
+
+func (n *pnode) materialise() ([]decision, []*pnode) {
+	if n == nil {
+		return nil, []*pnode{nil}
+	}
+	ds := make([]decision, n.depth)
+	ns := make([]*pnode, n.depth+1)
+	for c := n; c != nil; c = c.parent {
+		ds[c.depth-1] = c.d
+		ns[c.depth] = c
+	}
+	return ds, ns
+}
+
 type pathRun struct {
 	prefix []decision
+	nodes  []*pnode // nodes[i] represents prefix[:i]
 	pos    int
-	alts   [][]decision
+	alts   []*pnode
 	nDec   int
 }
 
@@ -40,15 +62,13 @@ func (r *pathRun) next() (decision, bool) {
 
 func (r *pathRun) record(d decision) {
 	r.prefix = append(r.prefix, d)
+	r.nodes = append(r.nodes, &pnode{parent: r.nodes[r.pos], d: d, depth: r.pos + 1})
 	r.pos++
 }
 
+// alt registers the alternative d for the decision about to be taken (callers invoke alt before record).
 func (r *pathRun) alt(d decision) {
-	a := make([]decision, r.pos, r.pos+1)
-	copy(a, r.prefix[:r.pos])
-	// r.pos already counts the decision being taken? callers invoke alt before record.
-	a = append(a, d)
-	r.alts = append(r.alts, a)
+	r.alts = append(r.alts, &pnode{parent: r.nodes[r.pos], d: d, depth: r.pos + 1})
 }
 
 func (in *Interp) countDecision() {
@@ -405,14 +425,20 @@ func startMemWatchdog() {
 	if v, err := strconv.Atoi(os.Getenv("GOSYM_MEMLIMIT_MIB")); err == nil && v > 0 {
 		memLimitMiB = v
 	}
+	// the collector gets aggressive at 3/4 of the budget (GOGC is set high for throughput)
+	debug.SetMemoryLimit(int64(memLimitMiB) << 20 / 4 * 3)
 	go func() {
 		var ms runtime.MemStats
 		for {
 			time.Sleep(500 * time.Millisecond)
 			runtime.ReadMemStats(&ms)
 			if ms.HeapAlloc>>20 > uint64(memLimitMiB) {
-				memExceeded.Store(true)
-				return
+				runtime.GC()
+				runtime.ReadMemStats(&ms)
+				if ms.HeapAlloc>>20 > uint64(memLimitMiB)/4*3 {
+					memExceeded.Store(true)
+					return
+				}
 			}
 		}
 	}()
@@ -447,7 +473,7 @@ type Explorer struct {
 	cfg   *HarnessCfg
 	res   *HarnessResult
 	mu    sync.Mutex
-	stack [][]decision
+	stack []*pnode
 	busy  int
 	cond  *sync.Cond
 	stop  bool
@@ -455,7 +481,7 @@ type Explorer struct {
 	sem   chan struct{} // global cap on concurrently running paths
 }
 
-func (ex *Explorer) pop() ([]decision, bool) {
+func (ex *Explorer) pop() (*pnode, bool) {
 	ex.mu.Lock()
 	defer ex.mu.Unlock()
 	for {
@@ -476,7 +502,7 @@ func (ex *Explorer) pop() ([]decision, bool) {
 	}
 }
 
-func (ex *Explorer) done(alts [][]decision) {
+func (ex *Explorer) done(alts []*pnode) {
 	ex.mu.Lock()
 	// push in reverse so that the first alternative is explored first
 	for i := len(alts) - 1; i >= 0; i-- {
@@ -491,7 +517,7 @@ func (ex *Explorer) Run() *HarnessResult {
 	t0 := time.Now()
 	ex.t0 = t0
 	ex.cond = sync.NewCond(&ex.mu)
-	ex.stack = [][]decision{nil}
+	ex.stack = []*pnode{nil}
 	var wg sync.WaitGroup
 	nw := ex.cfg.Workers
 	if nw < 1 {
@@ -589,9 +615,10 @@ func (ex *Explorer) worker() {
 	}
 }
 
-func (ex *Explorer) runPath(ts *TermStore, ctx *Ctx, prefix []decision) (alts [][]decision) {
+func (ex *Explorer) runPath(ts *TermStore, ctx *Ctx, start *pnode) (alts []*pnode) {
 	ctx.ResetPath()
-	run := &pathRun{prefix: prefix}
+	prefix, nodes := start.materialise()
+	run := &pathRun{prefix: prefix, nodes: nodes}
 	in := &Interp{P: ex.P, ts: ts, ctx: ctx, run: run, cfg: ex.cfg, result: ex.res,
 		globals: map[*ssa.Global]*value{}, pkgInit: map[*ssa.Package]int{},
 		maxSteps: ex.cfg.MaxSteps, maxDepth: ex.cfg.MaxDepth, ghost: map[string]value{}, jsonToks: map[string]value{}, funcsSeen: map[*ssa.Function]bool{}}
